@@ -832,6 +832,51 @@ fn main() {
         }
         oracle_class_debug(&mut or, &c, &input, true, base.as_deref());
     }
+    // (1b) programs compiled just now by the current compiler (driver: props/sierra_runtime
+    //      compile_fresh_corpus -> $H18_FRESH_DIR/cc_*.sierra: examples, bug samples, instantiation
+    //      zoo): the names the compiler really prints for specialized / generated functions
+    let mut fresh_files = vec![];
+    if let Ok(d) = std::env::var("H18_FRESH_DIR") {
+        walk(Path::new(&d), ".sierra", &mut fresh_files, false);
+    }
+    fresh_files.sort();
+    let mut fresh_parsed = 0;
+    let mut fresh_compiled = 0;
+    let mut fresh_bracketed_names: HashSet<String> = HashSet::new();
+    for f in &fresh_files {
+        let name = f.file_name().and_then(|x| x.to_str()).unwrap_or("").to_string();
+        let input = json!({"fresh": name});
+        let Ok(text) = std::fs::read_to_string(f) else { continue };
+        or.check("text-fresh-parse");
+        let p0 = match catch(AssertUnwindSafe(|| ProgramParser::new().parse(&text).map_err(|e| trunc(&format!("{:?}", e), 200)))) {
+            Ok(Ok(p)) => p,
+            Ok(Err(e)) => {
+                or.fail("text-fresh-parse", format!("ProgramParser refuses the text the compiler just printed: {}", e), input);
+                continue;
+            }
+            Err(pm) => {
+                or.fail("text-fresh-parse", format!("ProgramParser panics on the text the compiler just printed: {}", panic_msg(pm)), input);
+                continue;
+            }
+        };
+        fresh_parsed += 1;
+        for fu in &p0.funcs {
+            if let Some(n) = &fu.id.debug_name {
+                if n.contains('{') || n.contains('[') {
+                    fresh_bracketed_names.insert(n.to_string());
+                }
+            }
+        }
+        let c = progs::canon(&p0);
+        oracle_text(&mut or, &p0, &input);
+        oracle_debug_info(&mut or, &c, &input);
+        let base = if p0.statements.len() <= if thorough { 3000 } else { 300 } { casm_text(&p0).ok() } else { None };
+        if base.is_some() {
+            fresh_compiled += 1;
+            or.check("casm-equality");
+        }
+        oracle_class_debug(&mut or, &c, &input, true, base.as_deref());
+    }
     // (2) generated closed programs with consistent names, every GenericArg kind in type and
     //     libfunc declarations
     let n_named = 120 * mult;
@@ -1487,6 +1532,10 @@ fn main() {
         "e2e_parse_failures": e2e_parse_failures,
         "e2e_used_in_debug_info_legs": e2e_used,
         "e2e_compiled_to_casm": e2e_compiled,
+        "fresh_programs": fresh_files.len(),
+        "fresh_parsed": fresh_parsed,
+        "fresh_compiled_to_casm": fresh_compiled,
+        "fresh_distinct_bracketed_function_names": fresh_bracketed_names.len(),
         "named_programs": named_progs.len(),
         "populate_cases": populate_cases,
         "corpus_programs_compiled_to_casm": casm_compiled,
